@@ -170,6 +170,9 @@ def _impl(tier, seed, search):
         yield 'SpatialInertia', SpatialInertia(2.0, g.normal(size=3), np.eye(3))
         yield 'DualQuaternion', DualQuaternion(Quaternion(g.normal(size=4)), Quaternion(g.normal(size=4)))
         yield 'UnitDualQuaternion', UnitDualQuaternion(SE3(inputs.se3(g, 1)))
+        # more unit dual quaternions (a real part whose floating-point norm is not exactly 1 exposes a renormalising accessor), one fixed
+        yield 'UnitDualQuaternion#fixed', UnitDualQuaternion(SE3(1, 2, 3) * SE3.RPY([0.5, -0.2, 0.9]))
+        for k_ in range(5): yield f'UnitDualQuaternion#{k_}', UnitDualQuaternion(SE3(inputs.se3(g, 1)))
     nattr = 0
     for iname, X in instances():
         for attr in sorted(set(dir(type(X)))):
@@ -181,11 +184,11 @@ def _impl(tier, seed, search):
                 if isinstance(static, (classmethod, staticmethod)): raise TypeError('constructor-like')
                 return m()
             nattr += 1
-            res_ = observe('receiver', f'{iname}.{attr}', access, [X], sig=f'mutates-receiver:{iname.split("[")[0]}.{attr}')
+            res_ = observe('receiver', f'{iname}.{attr}', access, [X], sig=f'mutates-receiver:{iname.split("[")[0].split("#")[0]}.{attr}')
             # the result must be a new object: handing back the receiver (or its backing list) lets later list operations on the result edit it
             if res_ is not None and isinstance(res_, SMUserList) and attr not in ('copy',):
                 if res_ is X or res_.data is getattr(X, 'data', None):
-                    L.fail(f'returns-receiver:{iname.split("[")[0]}.{attr}', f'{iname}.{attr} returns its receiver (or shares its value list) instead of a new object', dict(callable=f'{iname}.{attr}'))
+                    L.fail(f'returns-receiver:{iname.split("[")[0].split("#")[0]}.{attr}', f'{iname}.{attr} returns its receiver (or shares its value list) instead of a new object', dict(callable=f'{iname}.{attr}'))
     # ---- 3a'. methods that take arguments: the arguments are supplied from their parameter names (another value of the receiver's class,
     #           a point, an angle, an interpolation parameter, bounds, a plane …); receiver and every argument must be unchanged
     def supply(iname, X, pname, variant):
@@ -226,8 +229,27 @@ def _impl(tier, seed, search):
                 for kw_ in flags:
                     nargm += 1
                     observe('method-with-args', f'{iname}.{attr}({", ".join(p_.name for p_ in req)}{"".join(", " + k_ + "=True" for k_ in kw_)})',
-                            lambda recv, *a_, attr=attr, kw_=kw_, names_=[p_.name for p_ in req]: getattr(recv, attr)(**dict(zip(names_, a_)), **kw_), [X] + args_, sig=f'mutates-argument:{iname.split("[")[0]}.{attr}')
+                            lambda recv, *a_, attr=attr, kw_=kw_, names_=[p_.name for p_ in req]: getattr(recv, attr)(**dict(zip(names_, a_)), **kw_), [X] + args_, sig=f'mutates-argument:{iname.split("[")[0].split("#")[0]}.{attr}')
     L.stats['methods_with_arguments'] = nargm
+    # ---- 3a''. histories: an object built from / derived from another value is then the target of an augmented operator; the source must be unchanged
+    for cname, cls, mkm in (('SE3', SE3, lambda: inputs.se3(g, 1)), ('SO3', SO3, lambda: inputs.so3(g)), ('SE2', SE2, lambda: inputs.se2(g, 1)), ('SO2', SO2, lambda: inputs.so2(g))):
+        for opn, aug in (('*=', operator.imul), ('/=', operator.itruediv)):
+            Y = cls(mkm())
+            def h_array():
+                T_ = mkm(); X = cls(T_); b0 = T_.tobytes(); X = aug(X, Y); return b0 == T_.tobytes()
+            def h_copy():
+                A_ = cls(mkm()); b0 = snap(A_); B_ = cls(A_); B_ = aug(B_, Y); return b0 == snap(A_)
+            def h_item():
+                S_ = cls([mkm() for _ in range(3)]); b0 = snap(S_); e_ = S_[1]; e_ = aug(e_, Y); return b0 == snap(S_)
+            def h_inv():
+                R_ = cls(mkm()); b0 = snap(R_); Ri = R_.inv(); Ri = aug(Ri, Y); return b0 == snap(R_)
+            def h_list():
+                A_ = cls(mkm()); Lst = cls([A_, cls(mkm())]); b0 = snap(A_); Lst = aug(Lst, Y); return b0 == snap(A_)
+            for hn, hf in (('array given to the constructor', h_array), ('object copied by the constructor', h_copy), ('sequence indexed', h_item), ('receiver of inv()', h_inv), ('object placed in a sequence', h_list)):
+                L.count('history-augmented', key=(cname, opn, hn)); L.sample('history-augmented', dict(cls=cname, op=opn, source=hn))
+                try: okh = hf()
+                except Exception: continue
+                if not okh: L.fail(f'mutates-through-history:{cname}{opn}', f'{cname}: after `X {opn} Y` on an object derived from another value ({hn}), that value has changed', dict(cls=cname, op=opn, source=hn))
     # ---- 3b. histories: an accessor's answer after documented list mutations equals the answer of a freshly built object ------
     for cname, cls, mk in (('SO3', SO3, lambda: inputs.so3(g)), ('SE3', SE3, lambda: inputs.se3(g, 1)), ('UnitQuaternion', UnitQuaternion, lambda: inputs.unitq(g)), ('SO2', SO2, lambda: inputs.so2(g)),
                            ('Twist3', Twist3, lambda: np.r_[g.normal(size=3), inputs.unit_axis(g)])):
